@@ -329,9 +329,13 @@ def compare_data(data, st, J):
         if tot != st['total_transactions'] or cnt != sum(m['count'] for m in st['by_merchant']):
             listed = {m['displayName'] for m in cvm}
             dropped = [m for m in st['by_merchant'] if m['name'] not in listed]
-            explained = dropped and all(m['name'] in colliding for m in dropped) and \
-                tot + sum(m['total'] for m in dropped) == st['total_transactions'] and \
-                cnt + sum(m['count'] for m in dropped) == sum(m['count'] for m in st['by_merchant'])
+            # a merchant whose *name* holds the JS placeholder is listed under an overwritten name (known finding
+            # placeholder-in-data): it still counts in the sums
+            renamed = [m for m in dropped if placeholder and JS_PH in m['name']]
+            gone = [m for m in dropped if m not in renamed]
+            explained = gone and all(m['name'] in colliding for m in gone) and \
+                tot + sum(m['total'] for m in gone) == st['total_transactions'] and \
+                cnt + sum(m['count'] for m in gone) == sum(m['count'] for m in st['by_merchant'])
             v.append(('C12/merchant-id-collision' if explained else 'C12/category-sums',
                       {'sum_of_category_totals': tot, 'analysed_total': st['total_transactions'],
                        'dropped_merchants': [m['name'] for m in dropped]}))
